@@ -126,6 +126,14 @@ impl UpdateValidator for TableValidator {
             0 => true,
             1 => false,
             2 => curr > prev,
+            // live `validator_race`: value = version * 1000 + writer; only the next version may replace the
+            // current one; writer 1's check is slow
+            4 => {
+                if curr % 1000 == 1 {
+                    std::thread::sleep(std::time::Duration::from_millis(2));
+                }
+                curr / 1000 == prev / 1000 + 1
+            }
             _ => curr % 2 == prev % 2,
         }
     }
@@ -138,8 +146,22 @@ pub enum CbEv {
     Reject(u64, u64, u64, i64),
 }
 
+/// `.1`: leave `on_reject` to the trait's default implementation (which hands the value to `on_exit`)
 #[derive(Clone, Default)]
-pub struct RecCallback(pub Arc<Mutex<Vec<CbEv>>>);
+pub struct RecCallback(pub Arc<Mutex<Vec<CbEv>>>, pub bool);
+
+/// a callback type that does not override `on_reject`
+struct DefaultReject(RecCallback);
+impl CacheCallback for DefaultReject {
+    type Value = u64;
+    fn on_exit(&self, val: Option<u64>) {
+        self.0.on_exit(val)
+    }
+    fn on_evict(&self, item: Item<u64>) {
+        self.0.on_evict(item)
+    }
+}
+
 impl CacheCallback for RecCallback {
     type Value = u64;
     fn on_exit(&self, val: Option<u64>) {
@@ -151,6 +173,9 @@ impl CacheCallback for RecCallback {
         self.0.lock().unwrap().push(CbEv::Evict(item.index, item.conflict, item.val.unwrap_or(0), item.cost));
     }
     fn on_reject(&self, item: Item<u64>) {
+        if self.1 {
+            return DefaultReject(RecCallback(self.0.clone(), false)).on_reject(item);
+        }
         self.0.lock().unwrap().push(CbEv::Reject(item.index, item.conflict, item.val.unwrap_or(0), item.cost));
     }
 }
@@ -190,7 +215,12 @@ pub struct Config {
     /// call the type-changing setters (key builder, coster, validator, callback, hasher) after the
     /// plain ones instead of before: the builder must carry every field across them
     pub late_setters: bool,
+    /// the callback leaves `on_reject` to the trait's default
+    pub default_reject: bool,
 }
+
+/// the cleanup interval every stepped cache is configured with (ticks are driven by the harness)
+pub const CFG_CLEANUP_SECS: u64 = 3600;
 
 pub struct Rig {
     pub cache: TCache,
@@ -199,18 +229,21 @@ pub struct Rig {
     pub cb: RecCallback,
     pub cfg: Config,
     pub coster: TableCoster,
+    /// `(ignore_internal_cost, cleanup interval ns)` the spawned processor was given
+    pub proc_cfg: Option<(bool, u64)>,
 }
 
 pub fn build(cfg: &Config) -> Result<Rig, CacheError> {
     verif::set_parked(true);
-    let cb = RecCallback::default();
+    let _ = verif::take_processor_config();
+    let cb = RecCallback(Default::default(), cfg.default_reject);
     let r = if cfg.late_setters {
         CacheBuilder::<u64, u64>::new(cfg.num_counters, cfg.max_cost)
             .set_buffer_size(cfg.buf_size)
             .set_buffer_items(cfg.buf_items)
             .set_metrics(cfg.metrics)
             .set_ignore_internal_cost(cfg.ignore_internal)
-            .set_cleanup_duration(Duration::from_secs(3600))
+            .set_cleanup_duration(Duration::from_secs(CFG_CLEANUP_SECS))
             .set_hasher(DetHasher::default())
             .set_key_builder(SplitKeyBuilder)
             .set_coster(TableCoster(cfg.coster))
@@ -228,13 +261,13 @@ pub fn build(cfg: &Config) -> Result<Rig, CacheError> {
             .set_buffer_items(cfg.buf_items)
             .set_metrics(cfg.metrics)
             .set_ignore_internal_cost(cfg.ignore_internal)
-            .set_cleanup_duration(Duration::from_secs(3600))
+            .set_cleanup_duration(Duration::from_secs(CFG_CLEANUP_SECS))
             .finalize()
     };
     let out = r.map(|cache| {
         let proc_ = TProc::take().expect("parked cache processor");
         let worker = ParkedPolicyWorker::<DetHasher>::take().expect("parked policy worker");
-        Rig { cache, proc_, worker, cb, cfg: cfg.clone(), coster: TableCoster(cfg.coster) }
+        Rig { cache, proc_, worker, cb, cfg: cfg.clone(), coster: TableCoster(cfg.coster), proc_cfg: verif::take_processor_config() }
     });
     verif::set_parked(false);
     out
@@ -290,6 +323,19 @@ impl Rig {
     }
     pub fn init_line(&self, maxcost: i64) -> String {
         let (bufcap, pqcap) = verif::cache_queue_caps(&self.cache);
+        let (eff_counters, eff_ring) = verif::cache_effective_sizes(&self.cache);
+        let snap = self.snapshot();
+        let eff = format!(
+            " eff_ignore={} eff_cleanup={} cfgcleanup={} eff_counters={} eff_ringcap={} eff_metrics={} cfgmax={} defrej={}",
+            self.proc_cfg.map_or(self.cfg.ignore_internal as u8, |p| p.0 as u8),
+            self.proc_cfg.map_or(CFG_CLEANUP_SECS * 1_000_000_000, |p| p.1),
+            CFG_CLEANUP_SECS * 1_000_000_000,
+            eff_counters,
+            eff_ring,
+            snap.metrics.is_some() as u8,
+            self.cfg.max_cost,
+            self.cfg.default_reject as u8
+        );
         format!(
             "c.init itemsize={} ignore={} bufcap={} ringcap={} pqcap={} metrics={} max={} samples=5 validator={} coster={} counters={} cfgbuf={} late={}",
             verif::cache_item_size(&self.cache),
@@ -304,7 +350,7 @@ impl Rig {
             self.cfg.num_counters,
             self.cfg.buf_size,
             self.cfg.late_setters as u8
-        )
+        ) + &eff
     }
 }
 
@@ -488,6 +534,7 @@ impl<'a> Stepper<'a> {
     }
 
     pub fn insert(&mut self, idx: u64, conf: u64, cost: i64, ttl_ns: u64, only: bool) -> bool {
+        crate::watch::note("insert");
         self.make_room();
         let v = self.next_val;
         self.next_val += 1;
@@ -511,6 +558,7 @@ impl<'a> Stepper<'a> {
 
     /// first half of an insert: the call passes its closed-check and parks before doing anything
     pub fn insert_begin(&mut self, idx: u64, conf: u64, cost: i64, ttl_ns: u64, only: bool) {
+        crate::watch::note("insert_begin");
         if self.parked_insert.is_some() {
             return;
         }
@@ -555,6 +603,7 @@ impl<'a> Stepper<'a> {
 
     /// second half: the parked insert goes on (store update, buffer send) and returns
     pub fn insert_finish(&mut self) {
+        crate::watch::note("insert_finish");
         if let Some((id, h)) = self.parked_insert.take() {
             gate_release();
             let r = if finished_within(&h, 5000) { h.join().unwrap_or_else(|_| "PANIC".to_string()) } else { "HANG".to_string() };
@@ -563,6 +612,7 @@ impl<'a> Stepper<'a> {
     }
 
     pub fn get(&mut self, idx: u64, conf: u64) {
+        crate::watch::note("get");
         let key = mk_key(idx, conf);
         let r = crate::catch(|| self.rig.cache.get(&key).map(|v| *v.value()));
         let ans = match r {
@@ -574,6 +624,7 @@ impl<'a> Stepper<'a> {
     }
 
     pub fn get_mut(&mut self, idx: u64, conf: u64) {
+        crate::watch::note("get_mut");
         let key = mk_key(idx, conf);
         let v = self.next_val;
         self.next_val += 1;
@@ -594,6 +645,7 @@ impl<'a> Stepper<'a> {
 
     /// `get_ttl` can deadlock against a queued writer on the pinned tree; run it with a watchdog
     pub fn get_ttl(&mut self, idx: u64, conf: u64) {
+        crate::watch::note("get_ttl");
         let key = mk_key(idx, conf);
         let r = crate::catch(|| self.rig.cache.get_ttl(&key));
         let ans = match r {
@@ -607,6 +659,7 @@ impl<'a> Stepper<'a> {
 
     /// remove: blocks (after the F12 repair) or errs (before it) when the buffer is full
     pub fn remove(&mut self, idx: u64, conf: u64) {
+        crate::watch::note("remove");
         let key = mk_key(idx, conf);
         let id = self.next_id;
         self.next_id += 1;
@@ -621,6 +674,7 @@ impl<'a> Stepper<'a> {
     }
 
     pub fn wait(&mut self) {
+        crate::watch::note("wait");
         let id = self.next_id;
         self.next_id += 1;
         let c = self.rig.cache.clone();
@@ -634,6 +688,7 @@ impl<'a> Stepper<'a> {
     }
 
     pub fn clear(&mut self) {
+        crate::watch::note("clear");
         let id = self.next_id;
         self.next_id += 1;
         let c = self.rig.cache.clone();
@@ -647,6 +702,7 @@ impl<'a> Stepper<'a> {
     }
 
     pub fn close(&mut self) {
+        crate::watch::note("close");
         let id = self.next_id;
         self.next_id += 1;
         let c = self.rig.cache.clone();
@@ -660,17 +716,20 @@ impl<'a> Stepper<'a> {
     }
 
     pub fn max_cost(&mut self, mc: i64) {
+        crate::watch::note("max_cost");
         self.rig.cache.update_max_cost(mc);
         self.emit(&format!("c.maxcost {}", mc), "ret=ok");
     }
 
     pub fn len(&mut self) {
+        crate::watch::note("len");
         let n = self.rig.cache.len();
         self.emit("c.len", &format!("ret={}", n));
     }
 
     /// after a worker step: report every blocked call that has returned by now
     pub fn reap(&mut self, grace_ms: u64) {
+        crate::watch::note("reap");
         let mut i = 0;
         while i < self.blocked.len() {
             if settled(&self.blocked[i], grace_ms.min(25)) {
@@ -684,6 +743,7 @@ impl<'a> Stepper<'a> {
     }
 
     pub fn proc_item(&mut self) -> bool {
+        crate::watch::note("proc_item");
         verif::obs_drain();
         let r = crate::catch(|| self.rig.proc_.step(Branch::Insert, |v| *v));
         match r {
@@ -740,6 +800,7 @@ impl<'a> Stepper<'a> {
     }
 
     pub fn proc_clear(&mut self) -> bool {
+        crate::watch::note("proc_clear");
         if self.rig.proc_.pending().1 == 0 {
             return false;
         }
@@ -760,6 +821,7 @@ impl<'a> Stepper<'a> {
     }
 
     pub fn proc_tick(&mut self) {
+        crate::watch::note("proc_tick");
         verif::obs_drain();
         let r = crate::catch(|| self.rig.proc_.step(Branch::Tick, |v| *v));
         let order: Vec<String> = verif::obs_drain()
@@ -780,6 +842,7 @@ impl<'a> Stepper<'a> {
 
     /// the stop branch; only meaningful while a `close()` is blocked on the rendezvous
     pub fn proc_stop(&mut self, ms: u64) -> bool {
+        crate::watch::note("proc_stop");
         self.settle_blocked_removes();
         let r = crate::catch(|| self.rig.proc_.step(Branch::Stop(ms), |v| *v));
         match r {
@@ -804,6 +867,7 @@ impl<'a> Stepper<'a> {
     }
 
     pub fn worker_items(&mut self) -> bool {
+        crate::watch::note("worker_items");
         match crate::catch(|| self.rig.worker.step_items()) {
             Some(Some(batch)) => {
                 self.emit(&format!("w.items {}", csv(&batch)), "ok=1");
@@ -819,6 +883,7 @@ impl<'a> Stepper<'a> {
 
     /// run the processor until buffer and clear queue are empty (and serve a pending close)
     pub fn drain(&mut self) {
+        crate::watch::note("drain");
         for _ in 0..100_000 {
             let (nbuf, nclear) = self.rig.proc_.pending();
             if nclear > 0 {
@@ -839,6 +904,7 @@ impl<'a> Stepper<'a> {
 
     /// end of life: everything blocked must have returned once the workers are drained
     pub fn finish(&mut self) {
+        crate::watch::note("finish");
         self.insert_finish();
         self.drain();
         self.reap(300);
@@ -881,6 +947,7 @@ pub fn sweep_config(rng: &mut Rng, i: usize) -> Config {
         coster: rng.below(2) as u8,
         validator: 0,
         late_setters: rng.chance(1, 2),
+        default_reject: rng.chance(1, 4),
     }
 }
 
@@ -918,6 +985,7 @@ pub fn random_config(rng: &mut Rng) -> Config {
         coster: rng.below(2) as u8,
         validator: *rng.pick(&[0u8, 0, 0, 1, 2, 3]),
         late_setters: rng.chance(1, 2),
+        default_reject: rng.chance(1, 4),
     }
 }
 
@@ -946,7 +1014,8 @@ pub fn cache_life(out: &mut Out, rng: &mut Rng, cfg: &Config, g: &GenOpts) {
     let universe = rng.range(2, 10);
     // the key range starts at a different index hash in different lives: striped structures (the
     // metrics counters live in 25 stripes picked by `hash % 25`) must be exercised on every stripe
-    let base = *rng.pick(&[0u64, 0, 20, 23, 45, 70]);
+    // (and the 256 shards of the store picked by `index % 256`: ranges around 255/256, 511/512, large ones)
+    let base = *rng.pick(&[0u64, 0, 20, 23, 45, 70, 250, 254, 506, 1020, 65_530, 4_294_967_280]);
     let item = if cfg.ignore_internal { 0 } else { verif::cache_item_size(&s.rig.cache) as i64 };
     let unit = ((cfg.max_cost - 0) / 6).max(1);
     let mut closed = false;
@@ -1238,6 +1307,7 @@ pub fn replay_script(out: &mut Out, script: &str) {
             coster: num("coster", 0) as u8,
             validator: num("validator", 0) as u8,
             late_setters: num("late", 0) == 1,
+            default_reject: num("defrej", 0) == 1,
         };
         let rig = match build(&cfg) {
             Ok(r) => r,
